@@ -126,6 +126,15 @@ func (db *DB) basicImport(ctx context.Context, filepath string) (err error) {
 		}
 	}
 
+	// the object has to be closed: a file that ends after a collection is a truncated export, not a complete one
+	t, err = d.Token()
+	if err != nil {
+		return NewErrJSONDecode(err)
+	}
+	if t != json.Delim('}') {
+		return ErrExpectedJSONObject
+	}
+
 	return nil
 }
 
